@@ -9,7 +9,7 @@ for d in "$@"; do
   git -C /repo worktree remove --force "$W" >/dev/null 2>&1; rm -rf "$W"
   git -C /repo worktree add --detach "$W" HEAD >/dev/null 2>&1 || { echo "$n worktree-failed"; continue; }
   if ! (cd "$W" && git apply "$V/$d/patch.diff") 2>/dev/null; then echo "$n check=$id exit=? patch does not apply"; git -C /repo worktree remove --force "$W"; continue; fi
-  out=$(UTAP_SRC="$W" UTAP_BUILD_ROOT="${MUT_BUILD_ROOT:-$V/.build-mut}" VERIF_EVIDENCE_DIR="$V/.work/mut-evidence" VERIF_SEED=${VERIF_SEED:-0} ./check "$id" --tier ${TIER:-quick} 2>&1); rc=$?
+  out=$(UTAP_SRC="$W" UTAP_BUILD_ROOT="${MUT_BUILD_ROOT:-$V/.build-mut}" VERIF_WORK="$V/.work/mut-work" VERIF_EVIDENCE_DIR="$V/.work/mut-evidence" VERIF_SEED=${VERIF_SEED:-0} ./check "$id" --tier ${TIER:-quick} 2>&1); rc=$?
   what=$(echo "$out" | grep -m1 "^  what:" | cut -c1-220)
   echo "$n check=$id exit=$rc $what"
   git -C /repo worktree remove --force "$W" >/dev/null 2>&1; rm -rf "$W"
